@@ -25,7 +25,7 @@ func encodeCase(e []byte, l int) map[string]interface{} {
 
 // C01: NewMnemonicByEntropy == reference encoder, string equality.
 func runC01(c *Ctx) {
-	c.res.Rule = "entropy scopes E_win/E_ham/E_run/E_per/E_blk/E_cs (DESIGN 2.4) x 10 languages; one evaluation = one NewMnemonicByEntropy call compared (string equality) with the bit-array reference encoder over golden lists; distinct_nontrivial = number of distinct entropies (all are valid-size inputs that exercise the full encoder)"
+	c.res.Rule = "entropy scopes E_win/E_ham/E_run/E_per/E_byte/E_blk/E_cs (DESIGN 2.4) x 10 languages; one evaluation = one NewMnemonicByEntropy call compared (string equality) with the bit-array reference encoder over golden lists; distinct_nontrivial = number of distinct entropies (all are valid-size inputs that exercise the full encoder)"
 	c.Assume("golden lists are canonical (digests pinned, english digest independently known)", "Go stdlib crypto/sha256")
 	c.entScopes(func(e []byte) {
 		keep := append([]byte(nil), e...)
@@ -230,14 +230,19 @@ func runC05(c *Ctx) {
 		si := sizeIdx(len(e))
 		for l := 0; l < ref.NLang; l++ {
 			got := check(e, l)
-			mn[key{si, l}].Add(got)
+			if !c.Thorough || l == 2 || l == 5 || l == 6 {
+				// (injectivity already follows from decode(mnemonic) == entropy; the explicit count
+				// is kept for all languages in the quick tier and for three in the thorough one,
+				// where it would otherwise cost several GB)
+				mn[key{si, l}].Add(got)
+			}
 		}
 		mu.Lock()
 		en[si]++
 		mu.Unlock()
 	})
 	for k, s := range mn {
-		if s.Len() != en[k.si] {
+		if s.Len() != 0 && s.Len() != en[k.si] {
 			c.Violate(fmt.Sprintf("injective:%d:%d", k.si, k.l),
 				fmt.Sprintf("size %d %s: %d distinct entropies produced only %d distinct mnemonics", enum.EntLens[k.si], ref.LangNames[k.l], en[k.si], s.Len()),
 				map[string]interface{}{"kind": "injectivity", "size": enum.EntLens[k.si], "lang": k.l})
